@@ -95,6 +95,11 @@ def calls_targets():
                   inputs=[("z", "ZV"), ("nle0", "S")], self=sampler_self(),
                   params={"z": var("z", "ZV")}, overrides=dict(inv),
                   outputs={"value": "return", "count": "self.n_likelihood_evaluations"}, calls=True))
+    T.append(dict(name="blackjax_log_prob", module="samplers.smc.blackjax", cls="BlackJAXSMC", func="log_prob",
+                  inputs=[("z", "ZV"), ("beta", "S"), ("nle0", "S")], self=sampler_self(),
+                  params={"x": var("z", "ZV"), "beta": S("beta")}, overrides=dict(inv),
+                  flags={"assume": {"hasattr(x, '__array__')": True}},
+                  outputs={"value": "return", "count": "self.n_likelihood_evaluations"}, calls=True))
     mut_over = dict(inv)
     mut_over.update({"partial": Opaque("partial"), "Sampler": Opaque("kernel"), "self.fit_preconditioning_transform": Opaque("fit"),
                      "sampler.sample": Tup([Opaque("chain"), Opaque("hist")]), "chain[-1]": var("znew", "ZV"),
